@@ -149,6 +149,11 @@ theorem opKind_wf (k : OpKind) (a b : A) (ha : a.WF) (hb : b.WF) {r : A} (h : k.
   · exact c20_bitAssign_wf _ _ _ ha hb h
   · exact c20_bitAssignScalar_wf _ _ _ ha h
 
+theorem roundLike_wf (a d : A) (_ha : a.WF) (_hd : d.WF) {r : A} (h : roundLike a d = .ok r) : r.WF := by
+  unfold roundLike at h
+  obtain ⟨_, _, h⟩ := bind_ok_inv h
+  exact new_ok_wf h
+
 theorem ext_wf (e : Ext) : ValWF e.run := by
   cases e with
   | arr shape => exact ofRes_wf fun r h => tagArr_wf h
